@@ -314,6 +314,8 @@ def run_values(ctx):
     return y
 
   wrapped = jax_utils.pad_shard_unpad(per_example, static_argnums=(0,), static_argnames=('scale',))
+  # static_argnames spelled as one string (as jax.jit accepts it); the batched keyword 's' is a SUBSTRING of 'scale'
+  wrapped_str = jax_utils.pad_shard_unpad(lambda params, x, s=None, scale=1.0: per_example(params, x, s, scale), static_argnums=(0,), static_argnames='scale')
   bmax = 3 * d + 2 if not quick else 2 * d + 2
   k = 0
   for b in range(1, bmax + 1):
@@ -330,7 +332,10 @@ def run_values(ctx):
         with ctx.case('values', d * 100000 + k, desc, nontrivial=b % d != 0 or mdb is not None):
           seen_shapes.clear()
           kw = dict(min_device_batch=mdb, scale=2.0)
-          got = wrapped(params, x, aux, **kw) if with_aux else wrapped(params, x, **kw)
+          if with_aux and k % 3 == 0:
+            got = wrapped_str(params, x, s=aux, **kw)
+          else:
+            got = wrapped(params, x, aux, **kw) if with_aux else wrapped(params, x, **kw)
           ctx.op('pad_shard_unpad')
           # direct evaluation on the unpadded batch (leaves viewed as (1, b, ...))
           want = per_example(params, {kk: v[None] for kk, v in x.items()}, None if aux is None else aux[None], scale=2.0)
